@@ -15,12 +15,15 @@ package main
 import (
 	"bufio"
 	"bytes"
+	"encoding/json"
 	"fmt"
 	"strings"
+	"time"
 
 	"github.com/free5gc/chf/cdr/asn"
 	"github.com/free5gc/chf/cdr/cdrType"
 	chf_context "github.com/free5gc/chf/internal/context"
+	"github.com/free5gc/openapi/models"
 )
 
 func init() {
@@ -79,7 +82,48 @@ func genRecBer(o genOpts, w *bufio.Writer) {
 		upd("update", usage(1, fill/2+r.intn(80), 5))
 		upd("release", usage(1, 30+r.intn(100), 5))
 	}
+	// creates that exercise every member OpenCDR reads from the request (consumer addresses, FQDN, PLMN id, node
+	// functionality, service specification, registration / PDU session information), well-formed and not
+	genCreateX(o, r, w)
 	fmt.Fprintf(w, "recber end\n")
+}
+
+var functionalities = []string{"SMF", "AMF", "SMSF", "PGW_C_SMF", "NEF", "SGW", "I_SMF", "ePDG", "CEF", "MnS_Producer", "CHF", "smf", "", "UPF", "SMF "}
+
+func genCreateX(o genOpts, r *rng, w *bufio.Writer) {
+	n := 60
+	if o.tier == "thorough" {
+		n = 600
+	}
+	fmt.Fprintf(w, "recber reset\n")
+	opt := func(xs ...string) string {
+		if r.chance(45) {
+			return "-"
+		}
+		return hexOf([]byte(xs[r.intn(len(xs))]))
+	}
+	for i := 0; i < n; i++ {
+		supi := fmt.Sprintf("imsi-20893%04d%06d", o.seed%10000, 800000+r.intn(5))
+		nf := r.pickStr("smf", "smf1", "a", "")
+		plmn := "~"
+		if r.chance(60) {
+			plmn = hexOf([]byte(r.pickStr("208", "001", "460", "99f", "ABC", "20", "2089", "abc", "12x", ""))) + "/" +
+				hexOf([]byte(r.pickStr("93", "001", "00", "f1", "9", "1234", "zz", "7F", "")))
+		}
+		pdu := "~"
+		if r.chance(50) {
+			pdu = fmt.Sprintf("%d/%d/%d/%s/%s", r.pick(0, 1, 7, 255, 65536, 2147483647, -1), r.pick(0, 1, 5, 255, 256, -128),
+				r.pick(0, 1, 2, 128, 255, 1000), hexOf([]byte(r.pickStr("", "010203", "ffffff", "1", "abcdefabcdef"))),
+				hexOf([]byte(r.pickStr("internet", "", "ims", strings.Repeat("d", 130)))))
+			if r.chance(15) {
+				pdu = r.pickStr("x0", "x1", "x2") // incomplete: no pduSessionInformation / networkSlicingInfo / sNSSAI
+			}
+		}
+		fmt.Fprintf(w, "recber createx %s %s %s %s %s %s %s %s %d %s\n", hexOf([]byte(supi)), hexOf([]byte(nf)),
+			hexOf([]byte(functionalities[r.intn(len(functionalities))])),
+			opt("10.0.0.1", "1.2.3.4", strings.Repeat("9", 140)), opt("2001:db8::1", "::"), opt("smf.example.org", "a", strings.Repeat("f", 300)),
+			plmn, opt("spec-info", "x", strings.Repeat("s", 200)), r.intn(2), pdu)
+	}
 }
 
 func recOctets(r *cdrType.CHFRecord) string {
@@ -100,9 +144,84 @@ func recEnvOf(r *cdrType.CHFRecord) string {
 		c.NFunctionConsumerInformation.NetworkFunctionality.Value)
 }
 
+// recber createx <supi> <nf> <functionality> <v4> <v6> <fqdn> <mcc/mnc|~> <svcSpec> <reg> <pdu: ~ | x0|x1|x2 | cid/sid/sst/sd/dnn>
+func runCreateX(t []string) string {
+	p := &tk{t: t[1:], ok: true}
+	r := &models.ChfConvergedChargingChargingDataRequest{}
+	r.SubscriberIdentifier = p.hexs()
+	id := &models.ChfConvergedChargingNfIdentification{NFName: p.hexs()}
+	id.NodeFunctionality = models.ChfConvergedChargingNodeFunctionality(p.hexs())
+	id.NFIPv4Address, id.NFIPv6Address, id.NFFqdn = p.hexs(), p.hexs(), p.hexs()
+	if pl := p.next(); pl != "~" {
+		mm := strings.SplitN(pl, "/", 2)
+		if len(mm) != 2 {
+			return "bad-op"
+		}
+		a, ok1 := unhex(mm[0])
+		b, ok2 := unhex(mm[1])
+		if !ok1 || !ok2 {
+			return "bad-op"
+		}
+		id.NFPLMNID = &models.PlmnId{Mcc: string(a), Mnc: string(b)}
+	}
+	r.NfConsumerIdentification = id
+	r.ServiceSpecificationInfo = p.hexs()
+	if p.i() == 1 {
+		r.RegistrationChargingInformation = &models.RegistrationChargingInformation{}
+	}
+	switch pd := p.next(); {
+	case pd == "~":
+	case pd == "x0":
+		r.PDUSessionChargingInformation = &models.ChfConvergedChargingPduSessionChargingInformation{ChargingId: 3}
+	case pd == "x1":
+		r.PDUSessionChargingInformation = &models.ChfConvergedChargingPduSessionChargingInformation{ChargingId: 3,
+			PduSessionInformation: &models.ChfConvergedChargingPduSessionInformation{PduSessionID: 1}}
+	case pd == "x2":
+		r.PDUSessionChargingInformation = &models.ChfConvergedChargingPduSessionChargingInformation{ChargingId: 3,
+			PduSessionInformation: &models.ChfConvergedChargingPduSessionInformation{PduSessionID: 1, NetworkSlicingInfo: &models.NetworkSlicingInfo{}}}
+	default:
+		f := strings.Split(pd, "/")
+		if len(f) != 5 {
+			return "bad-op"
+		}
+		sd, ok1 := unhex(f[3])
+		dnn, ok2 := unhex(f[4])
+		if !ok1 || !ok2 {
+			return "bad-op"
+		}
+		r.PDUSessionChargingInformation = &models.ChfConvergedChargingPduSessionChargingInformation{ChargingId: int32(i64(f[0])),
+			PduSessionInformation: &models.ChfConvergedChargingPduSessionInformation{PduSessionID: int32(i64(f[1])), DnnId: string(dnn),
+				NetworkSlicingInfo: &models.NetworkSlicingInfo{SNSSAI: &models.Snssai{Sst: int32(i64(f[2])), Sd: string(sd)}}}}
+	}
+	if !p.ok || len(p.t) != 0 {
+		return "bad-op"
+	}
+	r.ChargingId = 9
+	now := time.Now()
+	r.InvocationTimeStamp = &now
+	chfSupis[r.SubscriberIdentifier] = true
+	before := 0
+	if ue, ok := chf_context.GetSelf().ChfUeFindBySupi(r.SubscriberIdentifier); ok {
+		before = len(ue.Records)
+	}
+	b, _ := json.Marshal(r)
+	w := doHTTP("POST", ccPrefix+"/chargingdata", b)
+	out := fmt.Sprintf("st=%d", w.Code)
+	if ue, ok := chf_context.GetSelf().ChfUeFindBySupi(r.SubscriberIdentifier); ok && len(ue.Records) == before+1 && w.Code == 201 {
+		rec := ue.Records[before]
+		out += " new=" + recEnvOf(rec) + "/" + recOctets(rec) + " rec=" + dumpRecord(rec)
+	} else if ok && len(ue.Records) != before {
+		out += " new=?"
+	}
+	return out
+}
+
 func runRecBer(line string, t []string) string {
 	if len(t) == 0 {
 		return "bad-op"
+	}
+	if t[0] == "createx" {
+		return runCreateX(t)
 	}
 	base := runChf(line, t)
 	switch t[0] {
